@@ -175,7 +175,8 @@ class D:
 
 # doc forms: (source line, captured text or None)
 DOC_FORMS = [('/// x', 'x'), ('///x', 'x'), ('///  two spaces', ' two spaces'), ('///', ''), ('#[doc = "attr form"]', 'attr form'),
-             ('#[doc = " lead"]', 'lead'), ('#[doc(hidden)]', None), ('/// with "quotes" and \\\\ backslash', 'with "quotes" and \\\\ backslash'), ('/// é✓', 'é✓')]
+             ('#[doc = " lead"]', 'lead'), ('#[doc(hidden)]', None), ('/// trailing  ', 'trailing  '), ('///\ttab', '\ttab'), ('#[doc = "two\\nlines"]', 'two\nlines'),
+             ('/** block */', 'block '), ('#[doc = ""]', ''), ('///    indented code', '   indented code'), ('/// with "quotes" and \\\\ backslash', 'with "quotes" and \\\\ backslash'), ('/// é✓', 'é✓')]
 
 
 def doc_model(forms):
